@@ -198,10 +198,10 @@ def probe_values(cache_dir=None):
     back11 = read("back11/state_machine.hpp")
     mp11 = read("backmp11/detail/state_machine_base.hpp")
     conds = {
-        "COND_BACK_INTERNAL": cond_after(back, r"static void do_process\(Event const& evt,library_sm\* self_,HandledEnum& result, ::boost::mpl::true_\)\s*\{\s*if\s*\(", "back process_fsm_internal_table"),
-        "COND_BACK11_INTERNAL": cond_after(back11, r"struct process_fsm_internal_table.*?::boost::mpl::true_\)\s*\{\s*if\s*\(", "back11 process_fsm_internal_table"),
-        "COND_BACK_DEFERRED": cond_after(back, r"boost::msm::back::execute_return res = next\(\);\s*if\s*\(", "back do_handle_deferred"),
-        "COND_MP11_INTERNAL": cond_after(mp11, r"Dispatch the event to the SM-internal table if it hasn't been consumed yet\.\s*if\s*\(", "backmp11 do_process_event"),
+        "COND_BACK_INTERNAL": cond_after(back, r"static void do_process\(Event const& evt,library_sm\* self_,HandledEnum& result, ::boost::mpl::true_\)\s*\{\s*(?://[^\n]*\n\s*)*if\s*\(", "back process_fsm_internal_table"),
+        "COND_BACK11_INTERNAL": cond_after(back11, r"struct process_fsm_internal_table.*?::boost::mpl::true_\)\s*\{\s*(?://[^\n]*\n\s*)*if\s*\(", "back11 process_fsm_internal_table"),
+        "COND_BACK_DEFERRED": cond_after(back, r"boost::msm::back::execute_return res = next\(\);\s*(?://[^\n]*\n\s*)*if\s*\(", "back do_handle_deferred"),
+        "COND_MP11_INTERNAL": cond_after(mp11, r"Dispatch the event to the SM-internal table if it hasn't been consumed yet\.\s*(?://[^\n]*\n\s*)*if\s*\(", "backmp11 do_process_event"),
     }
     seq_back = member_type(back, r"\n\s*([A-Za-z_][A-Za-z_0-9 ]*?)\s+m_cur_seq;", "back m_cur_seq")
     seq_mp11 = member_type(mp11, r"\n\s*([A-Za-z_][A-Za-z_0-9:]*)\s+cur_seq_cnt\s*\{", "backmp11 cur_seq_cnt")
